@@ -162,7 +162,7 @@ def numFinish (src : Array UInt8) (offs : Nat) (ns : NS) : St × NumKind × List
     | some inv =>
       if ns.tok = .int then
         if offs ≤ inv then
-          match lit[inv - offs]? with
+          match (lit[inv - offs]? : Option UInt8) with
           | some dch => r.1.error inv (.invalidDigit dch.toNat (litname ns.pfx))
           | none => r.1.setFail .panic
         else r.1.setFail .panic
@@ -317,7 +317,7 @@ def maxLineCol : Int := 2 ^ 30
 /-- `updateLineInfo(next, offs, text)`: only the error-handler calls are modelled (the line
 table is out of scope).  `text[1]`, `text[:len-2]`, `text[7:]` … panic when out of range. -/
 def updateLineInfo (st : St) (offs : Nat) (text0 : List UInt8) : St :=
-  match text0[1]? with
+  match (text0[1]? : Option UInt8) with
   | none => st.setFail .panic
   | some c1 =>
     if c1 = 0x2A ∧ text0.length < 2 then st.setFail .panic else
@@ -354,8 +354,8 @@ structure CommentRes where
   nlOffset : Nat
 
 /-- xgo / go `scanComment` (the first byte `/` or `#` is consumed; `s.ch` is the byte after it).
-xgo: `//…`, `/*…*/` and — for any other `s.ch` — the `#` style, whose first `s.next()` skips the
-byte after `#` unexamined, as the code does.  go: `//…` else `/*…*/`. -/
+xgo: `//…`, `/*…*/` and — for any other `s.ch` — the `#` style (so `#/…` is scanned by the `//`
+branch and `#*…` as a general comment, as the code does).  go: `//…` else `/*…*/`. -/
 def scanCommentXG (d : Dialect) (src : Array UInt8) (fuel : Nat) (st : St) : CommentRes :=
   if st.off = 0 then ⟨st.setFail .panic, [], 0⟩ else
   let offs := st.off - 1
@@ -368,19 +368,19 @@ def scanCommentXG (d : Dialect) (src : Array UInt8) (fuel : Nat) (st : St) : Com
       let b := blockCommentLoop src fuel (next src st) 0 0
       if b.terminated then b else { b with st := b.st.error offs .commentNotTerminated }
     else
-      let l := lineCommentLoop src fuel (next src st) 0
+      let l := lineCommentLoop src fuel st 0
       ⟨l.1, l.2, 0, true⟩
   let s := sliceP src r.st offs r.st.off
   let lit0 := s.2
   -- final '\r' of a //-comment
-  let strip1 := 0 < r.numCR ∧ 2 ≤ lit0.length ∧ lit0[1]? = some 0x2F ∧ lit0.getLast? = some 0x0D
+  let strip1 := 0 < r.numCR ∧ 2 ≤ lit0.length ∧ lit0[1]? = some (0x2F : UInt8) ∧ lit0.getLast? = some (0x0D : UInt8)
   let lit1 := if strip1 then lit0.dropLast else lit0
   let numCR := if strip1 then r.numCR - 1 else r.numCR
   -- line directive (xgo: `len(lit) >= 2 &&` guard added by the fix of the `#`-at-EOF panic)
   let st1 :=
     if r.terminated then
       if d = .go ∨ 2 ≤ lit1.length then
-        match lit1[1]? with
+        match (lit1[1]? : Option UInt8) with
         | none => s.1.setFail .panic
         | some c1 =>
           if (c1 = 0x2A ∨ offs = s.1.lineOff) ∧ linePrefix.isPrefixOf (lit1.drop 2) then
@@ -389,7 +389,7 @@ def scanCommentXG (d : Dialect) (src : Array UInt8) (fuel : Nat) (st : St) : Com
       else s.1
     else s.1
   if 0 < numCR then
-    match lit1[1]? with
+    match (lit1[1]? : Option UInt8) with
     | none => ⟨st1.setFail .panic, lit1, r.nlOffset⟩
     | some c1 => ⟨st1, stripCR lit1 (c1 = 0x2A), r.nlOffset⟩
   else ⟨st1, lit1, r.nlOffset⟩
